@@ -2,3 +2,5 @@
 pub mod hexu;
 pub mod obs;
 pub mod codec;
+pub mod alloc;
+pub mod loaders;
